@@ -254,7 +254,7 @@ impl SD {
 }
 
 // ---------- text form (shared with runner/util.ml) ----------
-fn xname(s: &str) -> String {
+pub fn xname(s: &str) -> String {
     let mut o = String::from("x");
     for b in s.as_bytes() {
         o.push_str(&format!("{:02x}", b));
